@@ -10,9 +10,9 @@ CONSTANTS Tier,      \* "quick" | "thorough"
 Quick == Tier = "quick"
 
 \* one representative per character class
-ShortAlpha == {"0", "1", "a", "F", "g", "-", ":", ".", "T", "Z", "+", " ", "\t", "é", "€", "😀", "_"}
+ShortAlpha == {"0", "1", "a", "F", "g", "-", ":", ".", "T", "Z", "+", " ", "\t", "\n", "é", "€", "😀", "_"}
 ReplAlpha == ShortAlpha \cup {"9", "f", "A", "x", "t", "z", "3", "(", "s", "N"} \cup Wide
-LevelGAlpha == {"d", "e", "b", "g", "u", "D", "3", " ", "\t", "é"}
+LevelGAlpha == {"d", "e", "b", "g", "u", "D", "3", " ", "\t", "\n", NBSP, "é"}
 PathGAlpha == {"a", "é", "1", "_", ":", "-", "€"}
 HexAlpha == HexSet \cup {"g", "G"}
 
@@ -79,6 +79,17 @@ LevelPads == {<< <<>>, <<>> >>, << <<" ">>, <<" ">> >>, << <<"\t">>, <<>> >>}
 LevelTexts ==
     {p[1] \o Cased(SubSeq(w, 1, MinN(n, Len(w))), mode) \o sfx \o p[2] :
         w \in LevelWordSet, n \in 1..11, mode \in 1..4, sfx \in LevelSuffixes, p \in LevelPads}
+\* white space of every class (LevelParse.tla WsClasses), independently before and after a level / kind word
+WsSides == WsClasses \X WsClasses
+WsLevelTexts ==
+    {p[1] \o Cased(w, mode) \o sfx \o p[2] :
+        w \in LevelWordSet, mode \in {1, 2}, sfx \in {<<>>, <<"(", "4", ")">>, <<" ", "x">>}, p \in WsSides}
+WsKindTexts == {p[1] \o k \o p[2] : k \in {b \in KindBases : Len(b) \in {4, 6} /\ b[1] # " "}, p \in WsSides}
+\* white space inside a word is not trimmed: of the classes only the plain space ends a level match
+WsInside == {w \o c \o <<"x">> : w \in {<<"w", "a", "r", "n">>, <<"s", "p", "a", "n">>}, c \in WsClasses \ {<<>>}}
+ASSUME \A t \in WsLevelTexts : LevelVerdict(t).v = "a"
+ASSUME \A t \in WsKindTexts : KindVerdict(t).v = "a"
+ASSUME \A t \in WsInside : KindVerdict(t).v = "r" /\ (LevelVerdict(t).v = "a" <=> (t[1] = "w" /\ t[5] = " "))
 
 
 \* ---- formatted values
@@ -113,7 +124,9 @@ ASSUME \A t \in TsBases : TsVerdict(t).v = "a"
 ASSUME \A t \in TpBases : TpVerdict(t).v = "a"
 ASSUME \A t \in PathBases : IsPath(t)
 
-ASSUME PrintT(<<"FORMS", ToJson([casts |-> CastForms, channels |-> ValueChannels, typed |-> TypedCastForms, dontcare |-> CastDontCare])>>)
+ASSUME PrintT(<<"FORMS", ToJson([casts |-> CastForms, channels |-> ValueChannels, typed |-> TypedCastForms, dontcare |-> CastDontCare,
+                                flagforms |-> FlagForms,
+                                errors |-> [ch \in ErrorChannels |-> ErrorVia(ch)]])>>)
 \* ---- spec -> code
 CaseLine(t) == PrintT(<<"CASE", ToJson(Verdicts(t))>>)
 ASSUME Emit => \A k \in 0..(IF Quick THEN 3 ELSE 4) : \A t \in [1..k -> ShortAlpha] : CaseLine(t)
@@ -124,6 +137,7 @@ ASSUME Emit => \A b \in NearMissBases : \A t \in Mutants(b, ReplAlpha) : CaseLin
 ASSUME Emit => \A b \in FixedWidthBases : \A t \in WideMutants(b, Wide) : CaseLine(t)
 ASSUME Emit => \A c \in Wide : CaseLine(<<c>>) /\ CaseLine(<<c, c>>) /\ CaseLine(<<"a", c>>) /\ CaseLine(<<"a", ":", ":", c>>)
 ASSUME Emit => \A t \in AllBases \cup LevelTexts : CaseLine(t)
+ASSUME Emit => \A t \in WsLevelTexts \cup WsKindTexts \cup WsInside : CaseLine(t)
 \* every byte-length-preserving substitution is rejected by every fixed-width grammar
 ASSUME \A b \in FixedWidthBases : \A t \in WideMutants(b, Wide) :
     LET v == Verdicts(t) IN v.ts.v = "r" /\ v.tid.v = "r" /\ v.sid.v = "r" /\ v.fl.v = "r" /\ v.tp.v = "r"
@@ -132,7 +146,7 @@ ASSUME Emit => \A x \in QuickInstants : FmtLine(x)
 ASSUME (Emit /\ ~Quick) => \A y \in 1970..9999, m \in 1..12 :
     /\ FmtLine(<<[d |-> DaysFromCivil(y, m, 1), s |-> 0, n |-> 0], (y + m) % 10>>)
     /\ FmtLine(<<[d |-> DaysFromCivil(y, m, DaysInMonth(y, m)), s |-> 86399, n |-> 999999999], (y + 7 * m) % 10>>)
-ASSUME Emit => \A b \in 0..255 : PrintT(<<"FLAG", ToJson([b |-> b, text |-> Hex2(b)])>>)
+ASSUME Emit => \A b \in 0..255 : PrintT(<<"FLAG", ToJson([b |-> b, text |-> Hex2(b), forms |-> [f \in FlagForms |-> FlagOperands(f, b)]])>>)
 ASSUME Emit => \A tid \in IdPool32, sid \in IdPool16, fl \in {0, 1, 2, 128, 255} : TpFmtLine(tid, sid, fl)
 ASSUME Emit => \A l \in 1..4 : PrintT(<<"LVLFMT", ToJson([val |-> l, text |-> LevelText[l]])>>)
 ASSUME Emit => \A k \in 1..2 : PrintT(<<"KINDFMT", ToJson([val |-> k, text |-> KindText[k]])>>)
